@@ -893,6 +893,7 @@ func (r *Raft) ApplyLog(log Log, timeout time.Duration) ApplyFuture {
 			Extensions: log.Extensions,
 		},
 	}
+	logFuture.ShutdownCh = r.shutdownCh
 	logFuture.init()
 
 	select {
@@ -919,6 +920,7 @@ func (r *Raft) Barrier(timeout time.Duration) Future {
 
 	// Create a log future, no index or term yet
 	logFuture := &logFuture{log: Log{Type: LogBarrier}}
+	logFuture.ShutdownCh = r.shutdownCh
 	logFuture.init()
 
 	select {
@@ -937,6 +939,7 @@ func (r *Raft) Barrier(timeout time.Duration) Future {
 func (r *Raft) VerifyLeader() Future {
 	metrics.IncrCounter([]string{"raft", "verify_leader"}, 1)
 	verifyFuture := &verifyFuture{}
+	verifyFuture.ShutdownCh = r.shutdownCh
 	verifyFuture.init()
 	select {
 	case <-r.shutdownCh:
@@ -1119,6 +1122,7 @@ func (r *Raft) Restore(meta *SnapshotMeta, reader io.Reader, timeout time.Durati
 		meta:   meta,
 		reader: reader,
 	}
+	restore.ShutdownCh = r.shutdownCh
 	restore.init()
 	select {
 	case <-timer:
@@ -1141,6 +1145,7 @@ func (r *Raft) Restore(meta *SnapshotMeta, reader io.Reader, timeout time.Durati
 			Type: LogNoop,
 		},
 	}
+	noop.ShutdownCh = r.shutdownCh
 	noop.init()
 	select {
 	case <-timer:
